@@ -111,6 +111,7 @@ struct World {
 	uint64_t tagCounter = 0;
 	unsigned inUser = 0;          // depth of user code (callbacks / logger) inside an API call
 	bool inApi = false;
+	bool inLib = false;           // a library function called by the harness is on the stack (allocation accounting, C18)
 	bool ownRequest = false, ownReport = false, ownCancel = false;
 	unsigned ownLogCount = 0;
 	Ev ownLogLast;
@@ -678,6 +679,16 @@ struct World {
 		in.prevLenientEmptyOk = false;
 	}
 };
+
+// marks the extent of one call into the library (from the driver or from inside a callback)
+struct LibScope {
+	World& w;
+	unsigned savedUser;
+	bool savedLib;
+	LibScope() : w(*W), savedUser(w.inUser), savedLib(w.inLib) { w.inUser = 0; w.inLib = true; }
+	~LibScope() { w.inUser = savedUser; w.inLib = savedLib; }
+};
+#define LIB(expr) do { ::mon::LibScope libScope_; expr; } while (0)
 
 // ---------------------------------------------------------------------------
 
